@@ -267,30 +267,39 @@ def _closest(actual, variants):
   return best
 
 
-def sigint_phase(obs):
-  """Where was execute() when the first SIGINT was delivered to the main thread?
+def sigint_phases(obs):
+  """For every SIGINT delivered to the main thread: where was execute()?
 
-  'startup' (before it first waits for the executor), 'waiting' (inside
-  TestExecutor.wait), 'handler' (inside an earlier SIGINT handler) or
-  'finishing' (after the wait: finalize / output callbacks).
+  'startup' (before it first waits for the executor), 'waiting' (inside the guarded
+  TestExecutor.wait) or 'finishing' (after that wait: finalize / output callbacks / close).
   """
   log = obs.log
-  d = None
-  for e in log:
-    if e[3] == 'sigint_delivered':
-      d = e
-      break
-  if d is None:
-    return None
-  fz = first_seq(log, 'enter', lambda e: e[4] == 'finalize' and e[5] == 'test_executor.py')
-  if fz is not None and d[0] > fz:
-    return 'finishing'
-  if d[4] in ('wait', 'join'):
-    return 'waiting'
   w = first_seq(log, 'enter', lambda e: e[4] == 'wait' and e[5] == 'test_executor.py')
-  if w is None or d[0] < w:
-    return 'startup'
-  return 'finishing'
+  fz = first_seq(log, 'enter', lambda e: e[4] == 'finalize' and e[5] == 'test_executor.py')
+  out = []
+  for d in log:
+    if d[3] != 'sigint_delivered':
+      continue
+    if fz is not None and d[0] > fz:
+      out.append('finishing')
+    elif d[4] in ('wait', 'join'):
+      out.append('waiting')
+    elif w is None or d[0] < w:
+      out.append('startup')
+    else:
+      out.append('waiting_nested')   # inside an earlier handler that interrupted the wait
+  return out
+
+
+def sigint_phase(obs):
+  """The first phase other than 'waiting' in which a SIGINT was handled (else 'waiting')."""
+  ph = sigint_phases(obs)
+  if not ph:
+    return None
+  for p in ph:
+    if p in ('startup', 'finishing'):
+      return p
+  return 'waiting'
 
 
 def abort_effective(obs):
@@ -675,8 +684,7 @@ def c09(obs, act, viols, probes):
   log = obs.log
   spec = obs.spec
   if obs.failed is not None:
-    if obs.sim.sigint_sites and (sigint_phase(obs) != 'waiting' or any(
-        s_[0] not in ('wait', 'join') for s_ in obs.sim.sigint_sites)):
+    if obs.sim.sigint_sites and any(p_ != 'waiting' for p_ in sigint_phases(obs)):
       return
     if obs.failed in ('deadlock', 'hang'):
       viols.append(_v('execute_never_returned', failed=obs.failed, info=(obs.failed_info or '')[:300],
@@ -688,8 +696,7 @@ def c09(obs, act, viols, probes):
   if obs.exc not in (None, 'KeyboardInterrupt'):
     viols.append(_v('execute_raised', exc=obs.exc, msg=obs.extra.get('exc_msg')))
     return
-  if obs.sim.sigint_sites and (sigint_phase(obs) != 'waiting' or any(
-      s_[0] not in ('wait', 'join') for s_ in obs.sim.sigint_sites)):
+  if obs.sim.sigint_sites and any(p_ != 'waiting' for p_ in sigint_phases(obs)):
     # a SIGINT handled while the main thread was not waiting for the executor:
     # those positions are quantified (and their findings owned) by C04
     probes['sigint_outside_wait_left_to_C04'] = probes.get('sigint_outside_wait_left_to_C04', 0) + 1
